@@ -18,6 +18,11 @@ def monitor(case, line):
     for k, tok in enumerate(toks):
         if tok.startswith("!range:"):
             return "epoll_pwait called with timeout %s, outside [-1, INT_MAX]" % tok[8:].split(":")[0]
+        if tok.startswith("!skipped"):
+            kk, hh = tok[8:].split(",")
+            return ("%s handle %s stayed active for the whole %s phase (active at its first callback, not started, "
+                    "stopped or closed during it) but was not called" % (("idle", "prepare", "check")[int(kk) - 1], hh,
+                                                                          ("idle", "prepare", "check")[int(kk) - 1]))
         if tok == "!spin":
             return "the loop polled more than 4000 times in one case without reaching the callback cap (spinning)"
         if tok[0] == "x":
